@@ -29,8 +29,8 @@ META = {
             "over the whole bounded state graph, enumerates every access sequence up to a bound and one test per "
             "transition of the graph; all are replayed on the real functions on a private parsec_data_t with 3 copies "
             "and every access (result and full state) is validated by TLC against the property.",
-    "note": "3 device copies (2 and 3 in thorough); all sequences of <= 4 (quick) / 5-6 (thorough) accesses (device, R/W/RW, "
-            "bump), every transition of the state graph with versions <= 3 / 4, random walks of 8-16 accesses. Client "
+    "note": "3 device copies (2 and 3 in thorough); all sequences of <= 3 (quick) / 5-6 (thorough) accesses (device, R/W/RW, "
+            "bump), every transition of the state graph with versions <= 2 / 4, random walks of 10-16 accesses. Client "
             "discipline assumed: W always bumps, R never, RW may; the client copies the version of the named source. "
             "Trusted: TLC, the harness playing the client.",
     "technique": "TLA+ transcription checked by TLC (invariants) + replay of all bounded access sequences and per-transition "
@@ -49,14 +49,14 @@ def to_line(kind, ops):
     return kind + " | " + ";".join("%d %s %d" % (o[0], o[1], o[2]) for o in ops)
 
 
-_RE_ACC = re.compile(r'Access\((\d+),\s*\\?"(\w+)\\?",\s*(TRUE|FALSE)\)')
+_RE_ACC = re.compile(r'Access\((\d+),\s*(\d),\s*(\d)\)')
 
 
 def label_op(lab):
     m = _RE_ACC.search(lab)
     if not m:
         raise tlc.TLCError("unexpected edge label %r" % lab)
-    return (int(m.group(1)), m.group(2), 1 if m.group(3) == "TRUE" else 0)
+    return (int(m.group(1)), ("R", "W", "RW")[int(m.group(2)) - 1], int(m.group(3)))
 
 
 def quick_verdict(ctx, d, mod, cfg, executions):
@@ -111,7 +111,7 @@ def run(ctx):
     exe = ctx.harness("data_replay", ["harness/data/data_replay.c"])
     q = ctx.quick
     # ---- 1. the transcription against the four clauses, whole bounded state graph ------------------------------
-    gv = 3 if q else 4
+    gv = 2 if q else 4
     mod, cfg = mcgen.write_mc(d, "repaired", "Coherency", consts(3, 0, gv, False, True), invariants=INVS)
     ctx.tlc_check(d, mod, cfg, must_cover=("Access",), workers=4, timeout=1500)
     mod, cfg = mcgen.write_mc(d, "pinned", "Coherency", consts(3, 0, gv, False, False), invariants=INVS)
@@ -124,7 +124,7 @@ def run(ctx):
     # ---- 2. behaviours -----------------------------------------------------------------------------------------
     sets = {}                                   # n -> list of behaviour lines
     # (a) every access sequence up to the bound
-    for n, ml in (((3, 4),) if q else ((3, 5), (2, 6))):
+    for n, ml in (((3, 3),) if q else ((3, 5), (2, 6))):
         mod, cfg = mcgen.write_mc(d, "bfs%d" % n, "Coherency", consts(n, ml, ml, True, False), invariants=("TypeOK", "Emit"))
         r = ctx.tlc_check(d, mod, cfg, must_cover=("Access",), workers=4, timeout=2400)
         hs = [h for h in (tlc._parse_tla_string_list(l) for l in r.printed) if h]
